@@ -286,7 +286,7 @@ func indexedTxn(p *prng.R, g *gen.G, s *tspace.Schema, db *ref.DB) []ref.Op {
 }
 
 func c06Child(r *ev.Run, batch int) {
-	schemas := r.N(4, 40)
+	schemas := r.N(4, 100)
 	txns := r.N(150, 400)
 	for si := 0; si < schemas; si++ {
 		p := prng.Derive(r.Seed, "C06", batch, si)
